@@ -35,6 +35,7 @@ type perturbCfg struct {
 	sig          atomic.Uint64 // hash of the sequence of loop arms taken
 	stMu         sync.Mutex
 	states       map[uint64]struct{} // abstract loop states seen
+	model        *shadow             // online reference model of the loop (plain builds only)
 }
 
 var curPerturb atomic.Pointer[perturbCfg]
@@ -84,6 +85,9 @@ func hook(p int, key uintptr, s *scheduler.Scheduler, j *scheduler.ScheduledJob,
 	} else {
 		n := pc.counters[p].Add(1)
 		h = mix(pc.seed ^ uint64(p)<<40 ^ n)
+		if pc.model != nil && isLoopPoint(p) {
+			pc.model.event(p, key, j, a, b, c)
+		}
 		switch p {
 		case scheduler.VerifDispatch:
 			pc.dispatches.Add(1)
@@ -252,6 +256,9 @@ func (e emitter) Emit(st scheduler.State) {
 	x := e.x
 	if x.quiet {
 		return
+	}
+	if x.perturb.model != nil {
+		x.perturb.model.state(st)
 	}
 	r := stateRec{t: x.clock.Add(1), st: st, submitted: x.submitted.Load(), submittedDeps: x.submittedDeps.Load()}
 	x.stMu.Lock()
@@ -445,6 +452,9 @@ func newExec(sc *Scenario, quiet bool) *Exec {
 		x.plainOut = make([]int64, len(sc.Jobs))
 	}
 	x.perturb = &perturbCfg{seed: sc.PerturbSeed, profile: sc.Profile, quiet: quiet, scale: 1, states: map[uint64]struct{}{}}
+	if !quiet {
+		x.perturb.model = newShadow(x.limit, sc.COE)
+	}
 	switch {
 	case len(sc.Jobs) >= 10000:
 		x.perturb.scale = 200
